@@ -456,9 +456,6 @@ class MetricFetcher(Generic[QuantityT], FormulaStep):
                 )
                 return None
 
-        if primary_fetcher_sample.timestamp < self._latest_fallback_sample.timestamp:
-            return None
-
         # Synchronize the fallback fetcher with primary one
         while primary_fetcher_sample.timestamp > self._latest_fallback_sample.timestamp:
             try:
@@ -471,6 +468,11 @@ class MetricFetcher(Generic[QuantityT], FormulaStep):
                     err,
                 )
                 return None
+
+        # The fallback stream has no sample for the timestamp of the primary sample:
+        # it is ahead of the primary stream or it skipped that timestamp.
+        if primary_fetcher_sample.timestamp < self._latest_fallback_sample.timestamp:
+            return None
 
         return self._latest_fallback_sample
 
